@@ -86,12 +86,14 @@ class State:
         s.notes = []
         s.flags = {}         # path-local ghost flags (python-level, name -> z3 Bool)
         s.events = []        # path-local event log (for pattern obligations)
+        s.fresh_on_create = set()   # keys havocked before they were first materialised
 
     def copy(s):
         n = State.__new__(State)
         n.heap = dict(s.heap); n.sorts = s.sorts; n.pc = list(s.pc); n.alloc = s.alloc
         n.writes = list(s.writes); n.fresh = list(s.fresh); n.trace = list(s.trace); n.seen = set(s.seen)
         n.closures = dict(s.closures); n.notes = list(s.notes); n.flags = dict(s.flags); n.events = list(s.events)
+        n.fresh_on_create = set(s.fresh_on_create)
         return n
 
     # ---- raw arrays ----
@@ -100,7 +102,10 @@ class State:
             s.sorts[key] = (nidx, sort)
         if key not in s.heap:
             nidx, sort = s.sorts[key]
-            s.heap[key] = s._mk(key + '@0', nidx, sort)
+            if key in s.fresh_on_create:
+                s.heap[key] = s._mk(fresh_name(key), nidx, sort)
+            else:
+                s.heap[key] = s._mk(key + '@0', nidx, sort)
         return s.heap[key]
 
     @staticmethod
@@ -126,7 +131,11 @@ class State:
         return Store(a, idx[0], State._store(Select(a, idx[0]), idx[1:], v))
 
     def havoc(s, key, log=True):
-        if key not in s.sorts:
+        if key not in s.sorts or key not in s.heap:
+            # not materialised yet on this path: remember that its first use must see a fresh array
+            s.fresh_on_create.add(key)
+            s.heap.pop(key, None)
+            if log: s.writes.append((key, None))
             return
         nidx, sort = s.sorts[key]
         s.heap[key] = s._mk(fresh_name(key), nidx, sort)
@@ -134,6 +143,8 @@ class State:
 
     def havoc_at(s, key, idx, log=True):
         if key not in s.sorts:
+            s.fresh_on_create.add(key)
+            if log: s.writes.append((key, tuple(idx)))
             return
         nidx, sort = s.sorts[key]
         v = z3.Const(fresh_name('hv!' + key), sort) if len(idx) == nidx else None
